@@ -63,8 +63,19 @@ def main():
             rc = mod.replay(ctx, obj)
             return rc
         ctx.build()
-        mod.run(ctx)
-        if ctx.breaks and not ctx.violations and hasattr(mod, "search"):
+        try:
+            mod.run(ctx)
+        except core.Harness:
+            raise
+        except Exception:
+            # the check itself never raises on the tree it was built for: when it does, the code under test has
+            # left the behaviour the model and the harness describe (the correspondence cannot even be established).
+            # That is a break like any other: no verdict of its own, the result is decided by what the oracle found
+            tb = traceback.format_exc()
+            core.log(tb)
+            ctx.breaks.append({"kind": "correspondence", "what": "the correspondence harness could not complete its run against this tree",
+                               "case": "harness run", "impl": tb[-1500:], "model": "-"})
+        if ctx.breaks and not ctx.violations and hasattr(mod, "search") and not any(b.get("case") == "harness run" for b in ctx.breaks):
             # a proof obligation or the correspondence broke: look for a concrete failing input
             core.log(f"{pid}: obligation/correspondence break -> searching for a failing input")
             mod.search(ctx)
